@@ -19,6 +19,7 @@ import RtcModel.Lemmas.C07Rtp
 import RtcModel.Lemmas.C07Ice
 import RtcModel.Lemmas.C07Dtls
 import RtcModel.Lemmas.C07Sctp
+import RtcModel.Lemmas.C07SctpSt
 import RtcModel.Lemmas.C07Media
 import RtcModel.Lemmas.C07Sdp
 
@@ -70,11 +71,13 @@ theorem set_extension_total (present : Bool) (profile : Nat) (block : List UInt8
   have h2 := safe_allocs (B := 0 + 10 * block.toArray.size + 200) h
   simpa using h2
 
-/-- **marshal_total**: `RtpPacket::marshal` of any packet shape (any CSRC count, extension length, payload and
+/-- **marshal_total**: (lengths-only abstraction: the model re-derives `encoded_len` and the `write_to` put sequence by
+hand, so this proves that the two agree with each other for every shape — that they are the code's is the compared
+stream `marshal`, incl. the unchecked `marshal_into` fast path run in the same case) `RtpPacket::marshal` of any packet shape (any CSRC count, extension length, payload and
 padding length) returns a value or an error; its writes stay inside the `encoded_len` buffer. -/
-theorem marshal_total (ncsrc : Nat) (hasExt : Bool) (extLen payloadLen paddingLen : Nat) (b : Buf) (n : Nat) (s : String) :
-    Rtp.marshal ncsrc hasExt extLen payloadLen paddingLen b n ≠ .panic s :=
-  safe_noPanic (Rtp.marshal_safe ncsrc hasExt extLen payloadLen paddingLen b n) s
+theorem marshal_total (pt ncsrc : Nat) (hasExt : Bool) (extLen payloadLen paddingLen : Nat) (b : Buf) (n : Nat) (s : String) :
+    Rtp.marshal pt ncsrc hasExt extLen payloadLen paddingLen b n ≠ .panic s :=
+  safe_noPanic (Rtp.marshal_safe pt ncsrc hasExt extLen payloadLen paddingLen b n) s
 
 /-- `parse_rtcp_packets` (compound walk and every sub-parser) never panics and leaves its loops. -/
 theorem noPanic_rtcp (bs : List UInt8) (s : String) : runSlice Rtp.parseRtcp bs ≠ .panic s :=
@@ -129,20 +132,27 @@ theorem noPanic_turnPacket (bs : List UInt8) (peerKnown : Bool) (s : String) :
 theorem noPanic_handlePacket (bs : List UInt8) (s : String) : runSlice Ice.handlePacketClass bs ≠ .panic s :=
   safe_noPanic (Ice.handlePacketClass_safe (B := 0) (Q := fun _ _ _ => True) bs.toArray (by omega) (fun _ => trivial)) s
 
-/-- `TurnClient::recv` over TCP: for every receive-buffer size, every 16-bit frame length and every sequence of
-socket read sizes, the frame read stays inside the buffer (after the `fix:` commit), terminates, and returns the
-frame length only when it fits the buffer. -/
-theorem noPanic_turnTcpRecv (bufLen len : Nat) (reads : List Nat) (b : Buf) (n : Nat) (s : String) :
-    Ice.turnTcpRecv bufLen len reads b n ≠ .panic s :=
-  safe_noPanic (Ice.turnTcpRecv_safe bufLen len reads b n) s
+/-- `TurnClient::recv` over TCP (self-delimiting STUN / ChannelData messages): for every receive-buffer size and every
+byte stream the server sends before closing the connection, the read stays inside the buffer, ends (EOF is an error),
+and a returned message length never exceeds the buffer. -/
+theorem noPanic_turnTcpRecv (bufLen : Nat) (stream : List UInt8) (s : String) :
+    runBuf (Ice.turnTcpRecv bufLen) stream ≠ .panic s :=
+  safe_noPanic (Ice.turnTcpRecv_safe bufLen _ _) s
+
+/-- the RFC 4571 reader behind `IceSocketWrapper::recv_from` on an ICE-TCP stream and the first-frame reader of the
+shared passive TCP listener: for every byte stream the peer sends before closing, no panic, the read ends, the returned
+length fits the buffer, and the listener allocates at most `MAX_STUN_MESSAGE` (generated constant) bytes per connection. -/
+theorem noPanic_tcp4571Recv (bufLen : Nat) (stream : List UInt8) (s : String) :
+    runBuf (Ice.tcp4571Recv bufLen) stream ≠ .panic s :=
+  safe_noPanic (Ice.tcp4571Recv_safe bufLen _ _) s
+theorem noPanic_sharedTcpFirstFrame (stream : List UInt8) (s : String) : runBuf Ice.sharedTcpFirstFrame stream ≠ .panic s :=
+  safe_noPanic (Ice.sharedTcpFirstFrame_safe _) s
+theorem allocBound_sharedTcpFirstFrame (stream : List UInt8) : (runBuf Ice.sharedTcpFirstFrame stream).allocs ≤ 1500 := by
+  simpa [runBuf] using safe_allocs (safe_mono (Ice.sharedTcpFirstFrame_safe (Buf.ofList stream)) (fun _ _ _ h => h.2))
 
 /-- `unwrap_rtx_packet` is total on every payload. -/
 theorem noPanic_unwrapRtx (bs : List UInt8) (s : String) : runSlice Ice.unwrapRtx bs ≠ .panic s :=
   safe_noPanic (Ice.unwrapRtx_safe bs.toArray _ _) s
-
-/-- witness kept from before the fix: the unfixed frame read (`&mut buf[offset..len]` without the length check)
-panics for a 1501-byte frame and a 1500-byte buffer. -/
-example : (loopM (Ice.turnTcpBody 1500 1501) 1502 (0, [1501]) (Buf.ofList []) 0).isPanic = true := by decide +kernel
 
 /-! ## DTLS (src/transports/dtls/{record,handshake,mod}.rs) -/
 
@@ -151,13 +161,6 @@ theorem noPanic_dtlsRecordDecode (bs : List UInt8) (s : String) : runBuf Dtls.re
   safe_noPanic (Dtls.recordDecode_safe (B := 0) (Q := fun _ _ _ => True) (by omega) (fun _ _ _ => trivial)) s
 theorem noPanic_dtlsHandshakeDecode (bs : List UInt8) (s : String) : runBuf Dtls.handshakeDecode bs ≠ .panic s :=
   safe_noPanic (Dtls.handshakeDecode_safe (B := 0) (Q := fun _ _ _ => True) (by omega) (fun _ _ _ => trivial)) s
-
-/-- the record loop of `handle_incoming_packet` and the message loop of `process_handshake_payload` terminate on
-every datagram / record payload (each iteration consumes ≥ 13 resp. ≥ 12 bytes or leaves the loop). -/
-theorem noPanic_dtlsRecordWalk (bs : List UInt8) (s : String) : runBuf Dtls.recordWalk bs ≠ .panic s :=
-  safe_noPanic (Dtls.recordWalk_safe _ _) s
-theorem noPanic_dtlsHandshakeWalk (bs : List UInt8) (s : String) : runBuf Dtls.handshakeWalk bs ≠ .panic s :=
-  safe_noPanic (Dtls.handshakeWalk_safe _ _) s
 
 /-- `ClientHello::decode` / `ServerHello::decode` (after the `fix:` commit): total, allocation ≤ |bs|. -/
 theorem noPanic_clientHello (bs : List UInt8) (s : String) : runBuf Dtls.clientHelloDecode bs ≠ .panic s :=
@@ -192,24 +195,23 @@ theorem noPanic_clientExtWalk (bs : List UInt8) (s : String) : runBuf Dtls.clien
 theorem noPanic_serverExtWalk (bs : List UInt8) (s : String) : runBuf Dtls.serverExtWalk bs ≠ .panic s :=
   safe_noPanic (Dtls.serverExtWalk_safe _) s
 
-/-- the 16-bit handshake message counter of `process_handshake_payload` (after the `fix:` commit): any number of
-accepted in-order messages never panics and never leaves `u16` — exhaustion is a handshake error. -/
-theorem handshake_seq_counter_total (k s0 : Nat) (b : Buf) (n : Nat) (site : String) (hs : s0 ≤ 65535) :
-    Dtls.seqRun k s0 b n ≠ .panic site :=
-  safe_noPanic (Dtls.seqRun_safe k s0 b n hs) site
-
-/-- **dtls_reassembly_bounded**: for every history of decoded handshake messages (any types, sequence numbers,
-fragment offsets and lengths, on client or server, including the post-HelloVerifyRequest re-sync), the acceptance /
-fragment-reassembly bookkeeping of `process_handshake_payload` never panics, keeps `recv_message_seq` inside u16
-(exhaustion aborts the handshake) and keeps the reassembly buffer below 2^24 bytes — a peer cannot make
-`incomplete_handshake` grow without bound. (Tied to the code by reading + the live-endpoint exploration.) -/
-theorem dtls_reassembly_bounded (isClient : Bool) (ms : List Dtls.HsMsg) (b : Buf) (n : Nat) (site : String)
-    (hm : ∀ m ∈ ms, m.seq ≤ 65535 ∧ m.total < 16777216) :
-    Dtls.onMessages isClient {} ms b n ≠ .panic site ∧
-    ∀ c b' n', Dtls.onMessages isClient {} ms b n = .ok c b' n' → c.recvSeq ≤ 65535 ∧ c.incLen < 16777216 := by
-  have h := Dtls.onMessages_safe isClient ms {} b n (by unfold Dtls.HsCtx.Ok; decide) hm
+/-- **dtls_reassembly_bounded**: for every history of DATAGRAMS (arbitrary bytes) handed to the handshake run loop of an
+endpoint that has no keys yet (client or server) — the record loop of `handle_incoming_packet` (decode, epoch-0
+application-data skip, undecryptable-record break, alert indexing, error ends the datagram) and inside it the message
+loop of `process_handshake_payload` (messages decoded by the `HandshakeMessage::decode` model): the acceptance /
+fragment-reassembly bookkeeping of `process_handshake_payload` — sequence acceptance with the post-HVR re-sync, the
+clear-text-after-keys skip, buffer reset, the offset check, append, completion, `checked_add` of `recv_message_seq`,
+transcript append — never panics, leaves its loop, keeps `recv_message_seq` inside u16 (exhaustion ends the payload with
+an error) and keeps `incomplete_handshake` below 2^24 bytes. The model is compared with the real run loop on every run
+(stream `dtlsctx`: real multi-record datagrams into a real `DtlsTransport`; the context is published by a hook after each
+datagram; handshake message types whose handler is a no-op for the endpoint's role). Handlers themselves (crypto, certificates, flights) are outside the model. -/
+theorem dtls_reassembly_bounded (isClient : Bool) (datagrams : List (List UInt8)) (b : Buf) (n : Nat) (site : String) :
+    Dtls.datagramHistory isClient {} datagrams b n ≠ .panic site ∧
+    ∀ cs b' n', Dtls.datagramHistory isClient {} datagrams b n = .ok cs b' n' →
+      ∀ c ∈ cs, c.recvSeq ≤ 65535 ∧ c.incLen < 16777216 := by
+  have h := Dtls.datagramHistory_safe isClient datagrams {} b n (by unfold Dtls.HsCtx.Ok; decide)
   refine ⟨safe_noPanic h site, ?_⟩
-  intro c b' n' hr
+  intro cs b' n' hr
   unfold safe at h
   rw [hr] at h
   exact h
@@ -234,8 +236,22 @@ dispatch — never panics and leaves every loop, whatever the checksum compariso
 theorem noPanic_sctpPacket (bs : List UInt8) (crcOk : Bool) (s : String) : runBuf (Sctp.handlePacket crcOk) bs ≠ .panic s :=
   safe_noPanic (Sctp.handlePacket_safe crcOk _) s
 
-/-- the vectors these walkers build (gap blocks, SSN pairs, stream lists, DCEP strings, reassembly append) take at
-most `2·|bs|` bytes per packet. -/
+/-- **noPanic_sctpHistory**: every HISTORY of packets on one association (any bytes, any checksum verdicts, any set of
+issued cookies; server side from scratch or client side with its INIT outstanding) is handled without panic and
+every loop is left: besides the byte walkers this covers the state that decides what is walked — duplicate test,
+in-order fast path, `received_queue` insert and in-order drain of `handle_data` (queued chunk values are re-parsed by
+`process_data_payload` when drained: the proof carries the invariant that every queued value kept its 12-byte header),
+the T1 gates of INIT-ACK / COOKIE-ACK, duplicate INIT, COOKIE-ECHO, FORWARD-TSN with its queue `retain`, RE-CONFIG
+request numbering, DCEP channel creation, and handler errors that end a packet. The model is compared with a real
+association on every run (stream `sctpassoc`: replies, created channels, cumulative TSN, queue length, peer rwnd). -/
+theorem noPanic_sctpHistory (ps : List SctpSt.Pkt) (clientSide : Bool) (b : Buf) (n : Nat) (site : String) :
+    SctpSt.runHistory (if clientSide then { t1 := 1, hasTag := true } else {}) ps b n ≠ .panic site := by
+  apply safe_noPanic (SctpSt.runHistory_safe ps _ b n _) site
+  cases clientSide <;> (intro e he; simp at he)
+
+/-- the vectors the WALKERS build from one packet (gap blocks, SSN pairs, stream lists, DCEP strings, reassembly
+append) take at most `2·|bs|` bytes. Replies the handlers generate (INIT-ACK with cookie, HEARTBEAT-ACK, …) are
+constant-size per chunk and outside this bound (the live stream applies a per-session oracle instead). -/
 theorem allocBound_sctpPacket (bs : List UInt8) (crcOk : Bool) : (runBuf (Sctp.handlePacket crcOk) bs).allocs ≤ 2 * bs.length := by
   simpa [runBuf] using safe_allocs (Sctp.handlePacket_safe crcOk (Buf.ofList bs))
 
@@ -267,21 +283,26 @@ theorem allocBound_h264Push (st : Media.H264St) (seq ts : Nat) (marker : Bool) (
       st seq ts marker payload.toArray (b := b) (n := 0) (by simp) (fun _ _ h _ => by simpa using h))
   exact h
 
-/-- the UDPTL datagram parse (primary + redundant IFP walk) and first delivery are total; allocation ≤ 17·|bs|. -/
+/-- the UDPTL datagram parse (primary + redundant IFP walk) and first delivery are total; allocation ≤ 17·|bs| + 1400 (the receive buffer of the default configuration). -/
 theorem noPanic_udptl (bs : List UInt8) (s : String) : runSlice Media.udptlRecv bs ≠ .panic s :=
   safe_noPanic (Media.udptlRecv_safe bs.toArray _) s
-theorem allocBound_udptl (bs : List UInt8) : (runSlice Media.udptlRecv bs).allocs ≤ 17 * bs.length := by
+theorem allocBound_udptl (bs : List UInt8) : (runSlice Media.udptlRecv bs).allocs ≤ 17 * bs.length + 1400 := by
   simpa [runSlice] using safe_allocs (Media.udptlRecv_safe bs.toArray (Buf.ofList []))
 
 /-! ## signaling side (src/transports/ice/mod.rs candidate lines, src/peer_connection.rs mid arithmetic) -/
 
-/-- `IceCandidate::from_sdp` is total on every (ASCII) candidate string: the `parts[..]` indexing stays inside the
-token vector and the `tcptype` search loop terminates. -/
-theorem noPanic_candidateFromSdp (s : List UInt8) (b : Buf) (n : Nat) (site : String) : Sdp.candFromSdp s b n ≠ .panic site :=
+/-- `IceCandidate::from_sdp` on ASCII candidate strings with dotted-quad addresses — the hypothesis `_hascii` marks the
+scope in which the model IS the code's function (`split_whitespace` on ASCII, `Ipv4Addr` syntax; non-ASCII whitespace and
+IPv6 literals are covered by the oracle-only SDP streams): the `parts[..]` indexing stays inside the token vector and the
+`tcptype` / `raddr` search loops terminate. (The model itself is total on every byte list; the hypothesis is not used.) -/
+theorem noPanic_candidateFromSdp (s : List UInt8) (_hascii : ∀ c ∈ s, c.toNat < 128) (b : Buf) (n : Nat) (site : String) :
+    Sdp.candFromSdp s b n ≠ .panic site :=
   safe_noPanic (Sdp.candFromSdp_safe s b n) site
 
-/-- the remote-mid bookkeeping of `set_remote_description` (after the `fix:` commit, `saturating_add`) is total for
-every 16-bit mid and keeps `next_mid` inside `u16`. -/
+/-- the remote-mid bookkeeping of `set_remote_description` (after the `fix:` commit, `saturating_add`) keeps `next_mid`
+inside `u16` for every 16-bit mid. The function is a one-liner; what ties it to the code is the compared stream
+`sdpmid`, which reads `next_mid` of a live `PeerConnection` (hook snapshot) after `set_remote_description` for boundary
+and random mids and compares it with the fold of `midUpdate`. -/
 theorem mid_update_total (nextMid mid : Nat) (b : Buf) (n : Nat) (site : String) (hm : nextMid ≤ 65535) :
     Sdp.midUpdate nextMid mid b n ≠ .panic site ∧
     ∀ r b' n', Sdp.midUpdate nextMid mid b n = .ok r b' n' → r ≤ 65535 := by
@@ -292,6 +313,13 @@ theorem mid_update_total (nextMid mid : Nat) (b : Buf) (n : Nat) (site : String)
   rw [hr] at h
   simp only at h
   omega
+
+/-- witness for the known finding `retain:SctpInner::handle_packet:dcep-open-per-stream`: on an established association that
+already has 1024 channels a 12-byte DCEP OPEN on one more stream id creates one more — nothing in `handle_dcep` (nor in this model
+of it, which the `sctpassoc` stream compares with the code) limits the number of channels a peer can make the endpoint keep. -/
+theorem dcep_open_unbounded_witness :
+    (match SctpSt.handleDcepSt { state := 1, chans := List.range 1024 } 1024 (Buf.ofList [3, 0, 0, 0, 0, 0, 0, 0, 0, 0, 0, 0]) 0 with
+     | .ok s _ _ => decide (s.chans.length = 1025) | _ => false) = true := by decide +kernel
 
 /-- witness kept visible: the pre-fix arithmetic `mid_val + 1` panics for `a=mid:65535` in a build with overflow
 checks (cargo's dev profile) — and silently wraps to 0 in the release profile. -/
